@@ -81,9 +81,13 @@ func (c *Client) AlterPartitionReassignments(
 			apiTopicMap[topic] = apiTopic
 		}
 
-		replicas := []int32{}
-		for _, brokerID := range assignment.BrokerIDs {
-			replicas = append(replicas, int32(brokerID))
+		// A nil list is sent as null, which cancels a pending reassignment.
+		var replicas []int32
+		if assignment.BrokerIDs != nil {
+			replicas = make([]int32, 0, len(assignment.BrokerIDs))
+			for _, brokerID := range assignment.BrokerIDs {
+				replicas = append(replicas, int32(brokerID))
+			}
 		}
 
 		apiTopic.Partitions = append(
